@@ -274,7 +274,7 @@ impl LunarFestival {
   pub fn next(&self, n: isize) -> Option<Self> {
     let size: isize = LUNAR_FESTIVAL_NAMES.len() as isize;
     let i: isize = self.get_index() as isize + n;
-    Self::from_index((self.get_day().get_year() * size + i) / size, AbstractCulture::new().index_of(i, size as usize))
+    Self::from_index((self.get_day().get_year() * size + i).div_euclid(size), AbstractCulture::new().index_of(i, size as usize))
   }
 }
 
